@@ -6,7 +6,7 @@
     version is canonical semver, every requirement path is a fixed point of CleanPath, and the requirements are
     the key-sorted association list of a map.  Go's nil and empty slices/maps are the same model value, so the
     "normalise" of the design is the identity here.  go-toml, x/mod/semver and path.Clean are modelled. *)
-From Dawn Require Import Config.Model Config.File Config.Session Config.Proofs Config.ProofsFile Config.ProofsSession.
+From Dawn Require Import Config.Model Config.File Config.Session Config.Proofs Config.ProofsFile Config.ProofsSession Config.ProofsFree.
 
 (** Every string value: decoding its encoding gives it back, whatever follows it in the document. *)
 Theorem string_roundtrip : forall s rest, utf8 s -> parse_string (encode_string s ++ rest) = Some (s, rest).
@@ -27,6 +27,17 @@ Print Assumptions config_roundtrip.
 Theorem write_stable : forall c, valid c -> option_map write (load (write c)) = Some (write c).
 Proof. exact Proofs.write_stable. Qed.
 Print Assumptions write_stable.
+
+(** What "valid" does NOT restrict: the project's name, the project's version and the ignore patterns (an ordered list,
+    repetitions and empty patterns included) are free text - any valid UTF-8, whether or not it looks like a version,
+    a canonical or a non-canonical one, a clean or an unclean path, a number - and come back verbatim; only the
+    requirements carry the version and path conditions. *)
+Theorem free_fields_verbatim : forall n v ig rs,
+  utf8 n -> utf8 v -> Forall utf8 ig -> Forall valid_req rs -> keys_ascending rs = true ->
+  load (write (mkConfig n v ig rs)) = Some (mkConfig n v ig rs) /\
+  option_map write (load (write (mkConfig n v ig rs))) = Some (write (mkConfig n v ig rs)).
+Proof. exact free_fields_verbatim_full. Qed.
+Print Assumptions free_fields_verbatim.
 
 (** Rewriting in place (dawn get, dawn tidy): [write_config_file old c] = the bytes at the path after
     WriteConfigFile(path, c) when the path was in state [old] before ([None] = absent, [Some b] = a file holding
@@ -129,6 +140,21 @@ Qed.
 
 Example example_roundtrip : load (write example) = Some example.
 Proof. vm_compute. reflexivity. Qed.
+
+(** Text of the restricted fields' domains in the free fields: a project named "a//b/" (not a clean path) at version
+    "v1.2.3+build" (semver, not canonical), ignore patterns "./a", "a", "./a", a requirement named "v1": the loader
+    would reject or change these strings as a requirement's version or path, and keeps them as they are here. *)
+Definition free_text : config :=
+  mkConfig [97; 47; 47; 98; 47] [118; 49; 46; 50; 46; 51; 43; 98; 117; 105; 108; 100] [[46; 47; 97]; [97]; [46; 47; 97]]
+           [mkReq [118; 49] [97] [118; 49; 46; 50; 46; 51]].
+
+Example free_text_roundtrip :
+  semver_canonical (c_version free_text) = false /\ clean_path (c_name free_text) <> c_name free_text /\
+  load (write free_text) = Some free_text /\
+  load (write (mkConfig [] [] [] [mkReq [97] (c_name free_text) [118; 49; 46; 50; 46; 51]])) <>
+    Some (mkConfig [] [] [] [mkReq [97] (c_name free_text) [118; 49; 46; 50; 46; 51]]) /\
+  load (write (mkConfig [] [] [] [mkReq [97] [97] (c_version free_text)])) = None.
+Proof. split; [vm_compute; reflexivity|]. split; [vm_compute; discriminate|]. split; [vm_compute; reflexivity|]. split; [vm_compute; discriminate|vm_compute; reflexivity]. Qed.
 
 (** Why the model of os.Create truncates: writing over the old bytes WITHOUT emptying the file first is not a
     rewrite.  tidy dropping the last requirement [b] of {a, b}: the new serialisation is a prefix of the old one,
